@@ -315,6 +315,6 @@ func checkC03(p *core.Program, r *core.Report) {
 	}
 	r.Floor("public-tagged variables", 2)
 	r.Floor("public-input asserts", 2)
-	r.Floor("packed parts", 7)
+	r.Floor("packed parts", 5)
 	r.Floor("comparator accept asserts", 1)
 }
